@@ -71,7 +71,10 @@ def main():
     try:
         with warnings.catch_warnings():
             warnings.simplefilter("ignore")
-            if "replay" in spec:
+            if spec.get("part") == "suite-under-monitors":
+                from vf import suite_engine
+                suite_engine.run(rec, pid, list(getattr(mod, "SUITE_CONTRACTS", getattr(mod, "CONTRACTS", ()))))
+            elif "replay" in spec:
                 if hasattr(mod, "replay"):
                     mod.replay(spec["replay"], rec)
                 else:
